@@ -85,6 +85,32 @@ def mk_vector(kind, dim, tree, x1, x2, c, parts, reg):
     return "V %s %d | %s | %d %s | %d %s | %s | %s | %s" % (kind, dim, " ".join(tree), len(x1), " ".join(v for p in x1 for v in p),
                                                           len(x2), " ".join(v for p in x2 for v in p), " ".join(c), " ".join(map(str, parts)), reg)
 
+NORM_EXACT_BASES = [["LIN"], ["POLY", "2", "0", "0", "0"], ["POLY", "1", "0", "0", "0"], ["POLY", "3", "0", "0", "0"], ["MONO", "1"], ["MONO", "2"], ["MONO", "3"], ["SCALED", "1/4", "LIN"], ["SCALED", "4", "LIN"]]
+POW2 = ["1", "-1", "2", "-2", "4", "1/2", "-1/2", "-4"]
+def gen_norm_exact(rng):
+    """NormalizedKernel where floating point is exact: base kernel with k(x,x) = 4^a on axis vectors with coordinates +-2^a, so that
+    every square root and every division (by powers of two) is exact; value, input and parameter derivatives are compared exactly"""
+    dim = rng.choice([1, 2, 2, 3]); tree = ["NORM"] + rng.choice(NORM_EXACT_BASES)
+    def pts(n):
+        out = []
+        for _ in range(n):
+            v = ["0"] * dim; v[rng.randrange(dim)] = rng.choice(POW2); out.append(v)
+        return out
+    n1 = rng.randint(1, 4); n2 = rng.randint(1, 3); x1 = pts(n1); x2 = pts(n2)
+    if rng.random() < 0.3: x2[0] = list(x1[0])
+    c = [rng.choice(["1", "1", "2", "-1", "0", "1/2", "3"]) for _ in range(n1 * n2)]
+    return mk_vector("dense", dim, tree, x1, x2, c, composition(rng, n1), rng.choice(["0", "1/2"]))
+
+def norm_exact(line):
+    g = [x.split() for x in line.split("|")]; dim = int(g[0][2])
+    if g[1][0] != "NORM" or g[1][1:] not in NORM_EXACT_BASES: return False
+    for grp in (g[2], g[3]):
+        n = int(grp[0])
+        for i in range(n):
+            nzs = [v for v in grp[1 + i * dim:1 + (i + 1) * dim] if v != "0"]
+            if len(nzs) != 1 or nzs[0] not in POW2: return False
+    return True
+
 def gen_discrete(rng):
     n = rng.randint(1, 5); r = rng.randint(1, 3)
     a = [[rng.randint(-2, 2) for _ in range(r)] for _ in range(n)]
@@ -227,13 +253,14 @@ def monitor_line(line, out):
     return bad
 
 # ------------------------------------------------------------------ model vs implementation
-PAIRS = [("S", "S"), ("B", "B"), ("BS", "B"), ("SD", "SD"), ("D1", "D1"), ("FD", "FD"), ("FB", "FD"), ("G", "G"), ("G1", "G"), ("MX", "S"), ("KM", None), ("WI", "WI"), ("WP", "WP")]
+PAIRS = [("S", "S"), ("B", "B"), ("BS", "B"), ("SD", "SD"), ("D1", "D1"), ("FD", "FD"), ("FB", "FD"), ("G", "G"), ("G1", "G"), ("MX", "S"), ("KM", None), ("WI", "WI"), ("WP", "WP"), ("WP", "WP1")]
 MUST = ("S", "B")
 def exact_case(line):
     """every intermediate value of the C++ computation is a small dyadic rational: no sqrt/exp, divisions only by 1, 2, 4"""
     info = case_info(line); tr = info["tree"]
     if info["kind"] == "D": return True
     if info["kind"] == "M": return False
+    if info["kind"] == "V" and "NORM" in tr: return norm_exact(line)
     if any(c in tr for c in ("NORM", "RBF", "ARD")): return False
     for i, tk in enumerate(tr):
         if tk == "WSUM":
@@ -254,6 +281,19 @@ def compare_line(line, mout, iout, stats):
     m = parse_out(mout); d = parse_out(iout); exact = m.get("_mode") == "Q" and exact_case(line)
     if mout.startswith("ERR") or mout == "?": return ["model driver: " + mout]
     diffs = []
+    # which derivatives exist: the model has a coded gradient (WI: wid over g_*, WP: wpdv over p_*) exactly for the classes
+    # whose C++ code has one (ProductKernel: none; ModelKernel: parameters only; PolynomialKernel with the degree as
+    # parameter is not modelled); the C++ reports it in its feature flags F = normalized,hasParamDeriv,hasInputDeriv,n
+    info = case_info(line); F = d.get("F")
+    if info["kind"] == "V" and F and len(F) >= 4:
+        tr = info["tree"]; degparam = any(tk == "POLY" and tr[i + 3] == "1" for i, tk in enumerate(tr))
+        stats["flags"] = stats.get("flags", 0) + 1
+        if bool(F[2]) != ("WI" in m):
+            diffs.append("hasFirstInputDerivative() = %d but the model %s a coded input gradient for this kernel expression" % (int(F[2]), "has" if "WI" in m else "has no"))
+        if bool(F[1]) != ("WP" in m) and not (degparam and "WP" not in m):
+            diffs.append("hasFirstParameterDerivative() = %d but the model %s a coded parameter gradient for this kernel expression" % (int(F[1]), "has" if "WP" in m else "has no"))
+        if "WP" in m and m["WP"] is not None and int(F[3]) != len(m["WP"]):
+            diffs.append("numberOfParameters() = %d but the model's parameter gradient has %d entries" % (int(F[3]), len(m["WP"])))
     for fi, fm in PAIRS:
         if fm is None or fm not in m or m[fm] is None: continue
         a = d.get(fi)
@@ -264,9 +304,11 @@ def compare_line(line, mout, iout, stats):
         for i, (x, y) in enumerate(zip(a, m[fm])):
             if exact and isinstance(y, Fraction) and is_dyadic(y) and not (math.isnan(x) or math.isinf(x)):
                 stats["exact"] += 1
+                if fi in ("WI", "WP"): stats[fi + "_exact"] = stats.get(fi + "_exact", 0) + 1
                 if Fraction(x) != y: diffs.append("%s[%d]: implementation %r, model %s (exact)" % (fi, i, x, y)); break
             else:
                 stats["tol"] += 1
+                if fi in ("WI", "WP"): stats[fi + "_tol"] = stats.get(fi + "_tol", 0) + 1
                 if not close(x, y, 1e-11, 1e-12): diffs.append("%s[%d]: implementation %r, model %r" % (fi, i, float(x), float(y))); break
     return diffs
 
@@ -360,7 +402,7 @@ def main():
         ck.oblige("harness builds against /repo", False, err); ck.finish()
     tmpd = os.path.join(BUILD, "tmp", PID); os.makedirs(tmpd, exist_ok=True)
     big = ck.tier == "thorough"; rng = ck.rng; f = 12 if big else 1
-    cases = load_cases(ck, [(lambda: gen_vector(rng, False, big), 700 * f), (lambda: gen_vector(rng, True, big), 150 * f),
+    cases = load_cases(ck, [(lambda: gen_vector(rng, False, big), 700 * f), (lambda: gen_vector(rng, True, big), 150 * f), (lambda: gen_norm_exact(rng), 60 * f),
                             (lambda: gen_discrete(rng), 60 * f), (lambda: gen_pointset(rng), 60 * f), (lambda: gen_mkl(rng), 60 * f)])
     log("[C05] %d cases generated, proofs+builds took %.1fs" % (len(cases), time.time() - ck.t0))
     io = run_cases(impl, [[c] for c in cases], os.path.join(tmpd, "impl_in.txt"), env={"OMP_NUM_THREADS": "2", "OPENBLAS_NUM_THREADS": "1"})
@@ -428,6 +470,8 @@ def main():
     ck.notes["cases_per_kernel_class"] = cls_count
     ck.notes["cases_run_with_exact_rationals"] = qmode
     ck.notes["numbers_compared_exactly"] = stats["exact"]; ck.notes["numbers_compared_with_tolerance"] = stats["tol"]
+    ck.notes["derivative_numbers_compared"] = {k: v for k, v in stats.items() if k.startswith(("WI", "WP"))}
+    ck.notes["cases_with_derivative_flags_compared"] = stats.get("flags", 0)
     ck.notes["not_instantiable"] = "ARDKernelUnconstrained<CompressedRealVector> and NormalizedKernel<CompressedRealVector> (typedefs CompressedARDKernel, CompressedNormalizedKernel) do not compile in this tree; sparse cases use Linear, Polynomial, Monomial, GaussianRbf, Scaled, WeightedSum, Product"
     ck.finish(explanation="Coq theorems over C05Model (axiom-free, any ordered field) + exact/1e-11 correspondence of the extracted model with the compiled kernels + independent monitor on every anchored kernel class")
 
